@@ -20,7 +20,7 @@ def cases_for(run):
     # corpus first: the shape the property text names, and earlier minimised disagreements
     cases.append(("arena", [["fromset", [1, 2]], ["fromset", [2]], ["diff", 0, 1]]))
     cases.append(("zdd", [["fromset", [1, 2]], ["fromset", [2]], ["diff", 0, 1]]))
-    n = 240 if run.tier == "quick" else 6000
+    n = 240 if run.tier == "quick" else 4000
     for i in range(n):
         api = "arena" if i % 2 == 0 else "zdd"
         ops = Z.gen_ops(rng, api, 9 if i % 3 else 14)
@@ -47,16 +47,17 @@ def cases_for(run):
         kinds = ["union", "inter", "diff"] + (["product"] if api == "zdd" else [])
         cases += Z.exhaustive_pairs(2, kinds, api)
     if run.tier == "thorough":
-        # all pairs of families over 3 variables (256 x 256) is 65536 pairs; each case applies every binary op
+        # pairs of families over 3 variables (256 x 256 = 65536 pairs; each case applies every binary op): a seeded
+        # sample sized so that the tier ends within about half an hour (all 65536 x 2 APIs took about three hours)
         for api in ("arena", "zdd"):
             kinds = ["union", "inter", "diff"] + (["product"] if api == "zdd" else [])
-            cases += Z.exhaustive_pairs(3, kinds, api, limit=None if api == "arena" else 20000, rng=rng)
+            cases += Z.exhaustive_pairs(3, kinds, api, limit=9000 if api == "arena" else 5000, rng=rng)
     return cases
 
 
 def check(run):
     run.rule = ("op sequences over <=5 variables on ZddArena and standalone Zdd (random, seeded) + all pairs of families over 2 "
-                "(thorough: 3) variables x every binary op; non-trivial = some handle holds >= 2 sets and the sequence builds >= 4 ops+nodes; "
+                "variables (thorough: plus a seeded sample of 14000 pairs over 3 variables) x every binary op; non-trivial = some handle holds >= 2 sets and the sequence builds >= 4 ops+nodes; "
                 "distinct = distinct (api, op list)")
     run.trusted += ["Coq 8.16.1 kernel + vm_compute", "hand-written model coq/theories/Zdd/Model.v tied by differential run (root refs, node counts, node table, iteration order compared verbatim)",
                     "Rust harness harness/crates/zdd, Python driver checks/zdd_common.py (generators, explicit set-of-sets oracle)",
